@@ -125,7 +125,8 @@ def corpus():
               "\n@string{LNCS = {other}}\n\n@string{S = {1}}\n\n@string{s = {2}}\n",
               "text one\n\n@comment{}\n\ntext two\n\n@a{k, f = {v}}\n\n@comment{ }\n\ntext three",
               "@a{k1, f = {}}\n@comment{}\n@preamble{}\n@string{e = {}}\n@a{k2,}",
-              "@Article {K, F = {v}}\n@STRING {k = {w}}\n@a{k, f = k}"):
+              "@Article {K, F = {v}}\n@STRING {k = {w}}\n@a{k, f = k}",
+              "@a{Andre\u03012001, t = {x}}\n\n@a{Andr\u00e92001, t = {y}}\n\n@string{e\u0301 = {1}}\n\n@string{\u00e9 = {2}}\n\n@a{\ufb01, t = {z}}\n\n@a{fi, t = {w}}"):
         for f in (base, {"indent": "", "col": "auto", "sep": "", "tc": True}):
             out.append(dict(f, t=t, wfsrc=True))
     out.append({"t": texts[1], "indent": "    ", "col": "auto", "sep": " \n", "tc": True})
